@@ -104,7 +104,7 @@ type Config struct {
 
 // DefaultConfig is the configuration whose plans spec/ResizePlan.tla tabulates.
 func DefaultConfig() Config {
-	return Config{Members: []string{"n0", "n1", "n2"}, ReplicaN: 2, PartN: 12, Hasher: "mod", Shards: 40}
+	return Config{Members: []string{"n0", "n1", "n2"}, ReplicaN: 2, PartN: 12, Hasher: "mod", Shards: 8}
 }
 
 // Sim is a real coordinator cluster under the harness's control.
@@ -451,9 +451,12 @@ func poll(d time.Duration, f func() bool) bool {
 // more deadlines) before it is declared a failure: on a loaded machine a goroutine can be
 // starved for seconds, and a handler that is merely slow must not be reported as stuck. The
 // budget keeps a run with many genuinely stuck cases from taking forever.
-var longWaits int32 = 12
+var longWaits int32 = 40
 
 func extend() bool { return atomic.AddInt32(&longWaits, -1) >= 0 }
+
+// ResetWaitBudget restores the extension budget (before a sequential re-run).
+func ResetWaitBudget() { atomic.StoreInt32(&longWaits, 40) }
 
 // Within runs f and reports whether it returned within d (extended once, see longWaits).
 func Within(d time.Duration, f func()) bool {
